@@ -97,6 +97,8 @@ class Runner:
         res = core.result()
       for l in res['labels']:
         st_.labels[l] += 1
+      for fid, n in (res.get('known') or {}).items():
+        st_.known[fid] += n
       if res['nontrivial']:
         k = res['key'] or core.spec_hash(spec)
         if k not in st_.nontrivial:
